@@ -223,6 +223,33 @@ def walrus_ordering(ctx, rule="C16.param-flow"):
     return n
 
 
+def marginal_grid(ctx, rule="C16.param-flow"):
+    ctx.explain(f"{rule}: (marginal grids) BaseState.x_quad_values integrates the Wigner function OVER p and p_quad_values OVER x: the sample "
+                "points handed to the quadrature routine (simpson / trapezoid: `x=` or the second argument) derive from the grid of the "
+                "variable that is integrated out - the third parameter (pvec) in x_quad_values, the second (xvec) in p_quad_values. With the "
+                "other grid the integral has the wrong measure whenever the two grids differ.")
+    cls = ctx.tree.cls(ST, "BaseState")
+    n = 0
+    for name, own, other in (("x_quad_values", 3, 2), ("p_quad_values", 2, 3)):
+        f = cls.methods.get(name)
+        ctx.require(f is not None and len(f.params) >= 4, f"anchor vanished: BaseState.{name}(self, mode, xvec, pvec)")
+        want, wrong = f.params[own], f.params[other]
+        cfg = cfg_of(f.node)
+        for c in walk_no_nested(f.node):
+            if not isinstance(c, ast.Call) or (dotted(c.func) or "").split(".")[-1] not in ("simpson", "simps", "trapz", "trapezoid"):
+                continue
+            pts = [k.value for k in c.keywords if k.arg == "x"] or (c.args[1:2])
+            if not pts:
+                continue
+            ids = cfg.node_of_expr(c)
+            d = derives(f.node, pts[0], ids[0] if ids else None)
+            n += 1
+            ok = want in d.params and wrong not in d.params
+            ctx.ob(rule, f.site, ok, "" if ok else f"`{ast.unparse(c)[:60]}`: the sample points derive from `{wrong if wrong in d.params else '?'}`, "
+                   f"but {name} integrates over `{want}`", role="marginal-grid", line=c.lineno)
+    ctx.require(n >= 2, f"only {n} quadrature calls found in BaseState.x_quad_values / p_quad_values")
+
+
 def rules(ctx):
     walrus_ordering(ctx)
     quadrature_convention(ctx)
@@ -231,6 +258,7 @@ def rules(ctx):
     layout(ctx)
     sibling_counts(ctx)
     param_flow(ctx)
+    marginal_grid(ctx)
     A.alias_mutation(ctx, "C16.alias", ST, ("BaseGaussianState", "BaseBosonicState", "BaseFockState"))
     ctx.floor("C16.alias", 6)
     Hb.state_objects(ctx, "C16.dim")
